@@ -173,6 +173,15 @@ func cr(base, ext int64) *astits.ClockReference {
 	return &astits.ClockReference{Base: base, Extension: ext}
 }
 
+// pcrBase: the PCR values of successive calls are not monotonic (the 33-bit base wraps in a long stream, and
+// a caller may splice sources): calls alternate between values near the top of the range and near zero.
+func pcrBase(idx int) int64 {
+	if idx%2 == 1 {
+		return 0x1_ffff_ffff - int64(idx)*3003
+	}
+	return int64(idx)*3003 + 1
+}
+
 // MakeAF builds the caller's first-packet adaptation field for an AF kind.
 func MakeAF(kind string, idx int) *astits.PacketAdaptationField {
 	switch kind {
@@ -181,9 +190,9 @@ func MakeAF(kind string, idx int) *astits.PacketAdaptationField {
 	case "rai":
 		return &astits.PacketAdaptationField{RandomAccessIndicator: true}
 	case "pcr":
-		return &astits.PacketAdaptationField{HasPCR: true, PCR: cr(int64(idx)*3003+1, 17)}
+		return &astits.PacketAdaptationField{HasPCR: true, PCR: cr(pcrBase(idx), 17)}
 	case "raipcr":
-		return &astits.PacketAdaptationField{RandomAccessIndicator: true, HasPCR: true, PCR: cr(int64(idx)*3003+1, 299)}
+		return &astits.PacketAdaptationField{RandomAccessIndicator: true, HasPCR: true, PCR: cr(pcrBase(idx), 299)}
 	case "priv10":
 		p := payloadFor(idx+1000, 10, 7)
 		return &astits.PacketAdaptationField{HasTransportPrivateData: true, TransportPrivateData: p, TransportPrivateDataLength: len(p)}
